@@ -51,7 +51,8 @@ def gateOk (inRange skipped act isRetry : Bool) : Bool :=
 
 /-- One monitor step; `none` = the answer is not allowed.
     * outside the retry conditions the answer must be NoOp, and the sequence's budget is dropped;
-    * an in-range NoOp drops the budget;
+    * an in-range NoOp drops the budget — and is not allowed on a *first* response (`ID = SequenceID`)
+      when `A ≥ 1`: a sequence that was forgotten (exhausted, ended or expired) starts afresh;
     * a retry header is allowed on a *first* response (it may open a budget of `A`, this answer
       being the first unit) when `A ≥ 1`, otherwise only while budget is left. -/
 def pmon (A : Int) (b : AMap Nat) (e : PEvent) : Option (AMap Nat) :=
@@ -59,7 +60,9 @@ def pmon (A : Int) (b : AMap Nat) (e : PEvent) : Option (AMap Nat) :=
   if !e.inRange then
     (if e.out == .noop then some (erase e.seq b) else none)
   else match e.out with
-    | .noop => some (erase e.seq b)
+    | .noop =>
+      -- the first response of a (new life of a) sequence is always granted its retries
+      if e.first && decide (1 ≤ A) then none else some (erase e.seq b)
     | .retry _ =>
       if e.first && decide (1 ≤ A) then some (insert e.seq (max (cur - 1) (A.toNat - 1)) b)
       else if cur > 0 then some (insert e.seq (cur - 1) b)
